@@ -1,4 +1,528 @@
-//! harness family c15 (stub until the family is built)
+//! harness family c15: disassembly -> reassembly round trip on the real a2kit Merlin tools.
+//!
+//! Real code driven: `Disassembler::disassemble`, `Analyzer::analyze`, `Assembler::spot_assemble`.
+//! Direct oracles (property C15 stated on the real code):
+//!   * accounting   - every input byte is covered by exactly one emitted line (addresses taken from the real
+//!                    "all" labeling, lengths from reassembling each line on its own / expanding LUP..HEX..--^)
+//!   * reassembly   - whole text + processor declaration through analyzer + spot assembler: equal bytes or an
+//!                    explicit error, never different bytes; pure valid-instruction input must succeed
+//! Model tie (requests to the Lean driver): `c15 dasm ...` (line list), `c15 spans ...`, `c15 rt ...` (per-line bytes).
 use crate::util::*;
+use a2kit::lang::merlin::assembly::Assembler;
+use a2kit::lang::merlin::diagnostics::Analyzer;
+use a2kit::lang::merlin::disassembly::{DasmRange, Disassembler};
+use a2kit::lang::merlin::handbook::operations::OperationHandbook;
+use a2kit::lang::merlin::settings::Settings;
+use a2kit::lang::merlin::{MerlinVersion, ProcessorType, Symbols};
+use a2kit::lang::server::Analysis;
+use a2kit::lang::Document;
+use std::collections::HashMap;
+use std::sync::Arc;
 
-pub fn run(_ctx: &mut Ctx) {}
+#[derive(Clone, Copy, PartialEq, Eq, Hash, Debug)]
+pub enum Proc { P6502, P65c02, P65802, P65816 }
+#[derive(Clone, Copy, PartialEq, Eq, Hash, Debug)]
+pub enum Ver { M8, M16, M16p, M32 }
+
+const PROCS: [Proc; 4] = [Proc::P6502, Proc::P65c02, Proc::P65802, Proc::P65816];
+
+fn ptype(p: Proc) -> ProcessorType {
+    match p { Proc::P6502 => ProcessorType::_6502, Proc::P65c02 => ProcessorType::_65c02, Proc::P65802 => ProcessorType::_65802, Proc::P65816 => ProcessorType::_65c816 }
+}
+fn pname(p: Proc) -> &'static str { match p { Proc::P6502 => "6502", Proc::P65c02 => "65c02", Proc::P65802 => "65802", Proc::P65816 => "65816" } }
+fn vtype(v: Ver) -> MerlinVersion {
+    match v { Ver::M8 => MerlinVersion::Merlin8, Ver::M16 => MerlinVersion::Merlin16, Ver::M16p => MerlinVersion::Merlin16Plus, Ver::M32 => MerlinVersion::Merlin32 }
+}
+fn vname(v: Ver) -> &'static str { match v { Ver::M8 => "m8", Ver::M16 => "m16", Ver::M16p => "m16+", Ver::M32 => "m32" } }
+/// assembler variants in which processor `p` can be declared; the first is the primary one
+fn versions(p: Proc) -> &'static [Ver] {
+    match p {
+        Proc::P6502 => &[Ver::M8, Ver::M16p],
+        Proc::P65c02 => &[Ver::M8, Ver::M32],
+        Proc::P65802 => &[Ver::M8],
+        Proc::P65816 => &[Ver::M16, Ver::M16p, Ver::M32],
+    }
+}
+fn cfg_name(p: Proc, v: Ver) -> String { if v == versions(p)[0] { pname(p).to_string() } else { format!("{}@{}", pname(p), vname(v)) } }
+
+/// source lines that declare the processor (XC) and, where the pseudo-op exists, the register widths (MX)
+fn header(p: Proc, v: Ver, m8: bool, x8: bool) -> String {
+    let mut h = String::new();
+    match (p, v == Ver::M8) {
+        (Proc::P6502, true) => {}
+        (Proc::P65c02, true) => h += "         XC\n",
+        (Proc::P65802, true) => h += "         XC\n         XC\n",
+        (Proc::P65816, true) => panic!("65816 cannot be declared in Merlin 8"),
+        (Proc::P6502, false) => h += "         XC    OFF\n",
+        (Proc::P65c02, false) => h += "         XC    OFF\n         XC\n",
+        (Proc::P65802, false) => panic!("65802 is only reachable in Merlin 8"),
+        (Proc::P65816, false) => {}
+    }
+    if p == Proc::P65816 {
+        h += &format!("         MX    %{}{}\n", if m8 { 1 } else { 0 }, if x8 { 1 } else { 0 });
+    }
+    h
+}
+
+pub fn dasm(d: &mut Option<Disassembler>, bytes: &[u8], org: usize, p: Proc, m8: bool, x8: bool, brk: bool, labeling: &str) -> Result<Result<String, String>, String> {
+    let mut img = vec![0u8; org];
+    img.extend_from_slice(bytes);
+    if d.is_none() { *d = Some(Disassembler::new()); }
+    let dd = d.as_mut().unwrap();
+    let r = guarded(|| {
+        let mut cfg = Settings::new();
+        cfg.disassembly.brk = brk;
+        dd.set_config(cfg);
+        dd.set_mx(m8, x8);
+        dd.disassemble(&img, DasmRange::Range([org, img.len()]), ptype(p), labeling).map_err(|e| e.to_string())
+    });
+    if r.is_err() { *d = None; }
+    r
+}
+
+fn analyze(an: &mut Analyzer, text: &str, v: Ver) -> Result<Symbols, String> {
+    let mut cfg = Settings::new();
+    cfg.version = vtype(v);
+    an.set_config(cfg);
+    let doc = Document::from_string(text.to_string(), 0);
+    an.analyze(&doc).map_err(|e| format!("analyze: {}", e))?;
+    let [err, _w, _i] = an.err_warn_info_counts();
+    if err > 0 {
+        let d = an.get_diags(&doc);
+        let all = d.iter().filter(|x| format!("{:?}", x.severity).contains("Error")).map(|x| format!("L{}:{}", x.range.start.line, x.message)).collect::<Vec<String>>().join("/");
+        return Err(format!("diag: {}", all));
+    }
+    Ok(an.get_symbols())
+}
+
+struct Tools {
+    syms: HashMap<(Proc, Ver), Arc<Symbols>>,
+    book: HashMap<u8, a2kit::lang::merlin::MachineOperation>,
+    dis: Option<Disassembler>,
+    asm: Option<Assembler>,
+    ana: Option<Analyzer>,
+}
+impl Tools {
+    fn new() -> Self {
+        let mut syms = HashMap::new();
+        for p in PROCS { for v in versions(p) {
+            let mut an = Analyzer::new();
+            let s = match analyze(&mut an, &header(p, *v, true, true), *v) { Ok(s) => s, Err(e) => { eprintln!("header analysis failed for {:?} {:?}: {}", p, v, e); std::process::exit(3); } };
+            syms.insert((p, *v), Arc::new(s));
+        } }
+        Tools { syms, book: OperationHandbook::new().create_dasm_map(), dis: None, asm: None, ana: None }
+    }
+    fn dasm(&mut self, bytes: &[u8], org: usize, p: Proc, m8: bool, x8: bool, brk: bool, labeling: &str) -> Result<Result<String, String>, String> {
+        dasm(&mut self.dis, bytes, org, p, m8, x8, brk, labeling)
+    }
+    fn spot(&mut self, text: String, syms: Arc<Symbols>, v: Ver, pc: usize, mx: (bool, bool)) -> Result<Vec<u8>, String> {
+        if self.asm.is_none() { self.asm = Some(Assembler::new()); }
+        let a = self.asm.as_mut().unwrap();
+        let mut cfg = Settings::new();
+        cfg.version = vtype(v);
+        a.set_config(cfg);
+        a.set_mx(mx.0, mx.1);
+        a.use_shared_symbols(syms);
+        let n = text.lines().count() as isize;
+        a.spot_assemble(text, 0, n, Some(pc)).map_err(|e| format!("asm: {}", e))
+    }
+    /// assemble a few lines on their own (no analyzer pass; symbols carry processor + assembler variant)
+    fn asm_lines(&mut self, lines: &str, p: Proc, v: Ver, pc: usize, mx: (bool, bool)) -> Result<Result<Vec<u8>, String>, String> {
+        let syms = self.syms.get(&(p, v)).unwrap().clone();
+        let text = lines.to_string();
+        let r = guarded(|| self.spot(text, syms, v, pc, mx));
+        if r.is_err() { self.asm = None; }
+        r
+    }
+    /// the pipeline of `a2kit asm`: analyzer on the whole text, then the spot assembler with its symbols
+    fn asm_full(&mut self, text: &str, v: Ver, pc: usize, mx: (bool, bool)) -> Result<Result<Vec<u8>, String>, String> {
+        let text = text.to_string();
+        let r = guarded(|| {
+            if self.ana.is_none() { self.ana = Some(Analyzer::new()); }
+            let syms = analyze(self.ana.as_mut().unwrap(), &text, v)?;
+            let ds = Arc::new(Assembler::dasm_symbols(Arc::new(syms)));
+            self.spot(text, ds, v, pc, mx)
+        });
+        if r.is_err() { self.asm = None; self.ana = None; }
+        r
+    }
+    /// handbook data: is `op` an instruction of processor `p`, and how many operand bytes does it take
+    fn instr_len(&self, op: u8, p: Proc, m8: bool, x8: bool) -> Option<usize> {
+        let mo = self.book.get(&op)?;
+        if !mo.processors.contains(&ptype(p)) { return None; }
+        let digits: Vec<usize> = mo.operand_snippet.bytes().filter(|c| c.is_ascii_digit()).map(|c| (c - b'0') as usize).collect();
+        let mut n: usize = digits.iter().sum();
+        if mo.m_sensitive && !m8 || mo.x_sensitive && !x8 { n += 1; }
+        Some(1 + n)
+    }
+    /// true iff `bytes` is a concatenation of complete valid instructions of `p`
+    fn pure_code(&self, bytes: &[u8], p: Proc, m8: bool, x8: bool, brk: bool) -> bool {
+        let mut i = 0;
+        while i < bytes.len() {
+            if bytes[i] == 0 && !brk { return false; }
+            match self.instr_len(bytes[i], p, m8, x8) { Some(n) if i + n <= bytes.len() => i += n, _ => return false }
+        }
+        true
+    }
+}
+
+#[derive(Clone)]
+pub struct Case { p: Proc, m8: bool, x8: bool, brk: bool, org: usize, bytes: Vec<u8>, kind: &'static str }
+impl Case {
+    fn desc(&self, idx: usize) -> String {
+        format!("idx={} kind={} proc={} mx={}{} brk={} org={:X} bytes={}", idx, self.kind, pname(self.p), self.m8 as u8, self.x8 as u8, self.brk as u8, self.org, hx(&self.bytes))
+    }
+    fn canon(&self) -> Vec<u8> {
+        let mut v = vec![self.p as u8, self.m8 as u8, self.x8 as u8, self.brk as u8];
+        v.extend_from_slice(&(self.org as u32).to_le_bytes());
+        v.extend_from_slice(&self.bytes);
+        v
+    }
+}
+
+/// one emitted unit of source: a single line, or the three lines LUP n / HEX .. / --^
+struct Group { text: String, first: String }
+
+fn split_cols(line: &str) -> Vec<String> {
+    // label column starts at col 0; a leading blank means "no label"
+    let mut cols: Vec<String> = Vec::new();
+    let has_label = !line.starts_with(' ');
+    let mut rest = line.trim_start();
+    if !has_label { cols.push(String::new()); }
+    // label / mnemonic are blank free; the operand is everything that remains (may contain blanks)
+    while cols.len() < 2 {
+        match rest.find(' ') {
+            Some(i) => { cols.push(rest[..i].to_string()); rest = rest[i..].trim_start(); }
+            None => { cols.push(rest.to_string()); rest = ""; }
+        }
+    }
+    cols.push(rest.to_string());
+    cols
+}
+
+fn groups(text: &str) -> Vec<Group> {
+    let lines: Vec<&str> = text.lines().collect();
+    let mut ans = Vec::new();
+    let mut i = 0;
+    while i < lines.len() {
+        let c = split_cols(lines[i]);
+        if c[1] == "LUP" && i + 2 < lines.len() {
+            ans.push(Group { text: format!("{}\n{}\n{}\n", lines[i], lines[i + 1], lines[i + 2]), first: lines[i].to_string() });
+            i += 3;
+        } else {
+            ans.push(Group { text: format!("{}\n", lines[i]), first: lines[i].to_string() });
+            i += 1;
+        }
+    }
+    ans
+}
+
+/// harness-side reading of `LUP n / HEX h / --^`
+fn expand_lup(g: &Group) -> Option<Vec<u8>> {
+    let ls: Vec<&str> = g.text.lines().collect();
+    if ls.len() != 3 { return None; }
+    let (a, b, c) = (split_cols(ls[0]), split_cols(ls[1]), split_cols(ls[2]));
+    if a[1] != "LUP" || b[1] != "HEX" || c[1] != "--^" { return None; }
+    let n: usize = a[2].parse().ok()?;
+    let h = hex::decode(&b[2]).ok()?;
+    let mut v = Vec::new();
+    for _ in 0..n { v.extend_from_slice(&h); }
+    Some(v)
+}
+
+fn canon_line(line: &str) -> String {
+    let c = split_cols(line);
+    if c[2].is_empty() { c[1].clone() } else { format!("{} {}", c[1], c[2]) }
+}
+
+fn short(s: &str) -> String { s.chars().take(120).collect() }
+
+fn eval_case(ctx: &mut Ctx, tools: &mut Tools, idx: usize, case: &Case) {
+    let Case { p, m8, x8, brk, org, .. } = *case;
+    let bytes = &case.bytes;
+    let end = org + bytes.len();
+    // opcode 00 is an instruction for the disassembler only when its `brk` option is on
+    let pure = tools.pure_code(bytes, p, m8, x8, brk);
+    ctx.out.case(&case.canon(), !bytes.is_empty());
+    ctx.out.count(&format!("kind:{}", case.kind));
+    ctx.out.count(&format!("proc:{}", pname(p)));
+    if pure { ctx.out.count("pure-code"); }
+    let pn = pname(p);
+    // ---- disassemble (real code) ----
+    let none = match tools.dasm(bytes, org, p, m8, x8, brk, "none") {
+        Ok(Ok(t)) => t,
+        Ok(Err(e)) => { ctx.out.oracle(false, "disassembles", &format!("c15/{}/dasm-error", pn), &format!("{} err={}", case.desc(idx), short(&e))); return; }
+        Err(pn_) => { ctx.out.oracle(false, "disassembles", &format!("panic:{}", panic_site(&pn_)), &case.desc(idx)); return; }
+    };
+    let all = match tools.dasm(bytes, org, p, m8, x8, brk, "all") {
+        Ok(Ok(t)) => t,
+        Ok(Err(e)) => { ctx.out.oracle(false, "disassembles", &format!("c15/{}/dasm-error", pn), &format!("{} labeling=all err={}", case.desc(idx), short(&e))); return; }
+        Err(pn_) => { ctx.out.oracle(false, "disassembles", &format!("panic:{}", panic_site(&pn_)), &format!("{} labeling=all", case.desc(idx))); return; }
+    };
+    ctx.out.oracle(true, "disassembles", "-", "-");
+    if idx % 997 == 0 { ctx.out.sample(&format!("{} => {}", case.desc(idx), none.lines().map(canon_line).collect::<Vec<_>>().join(" / "))); }
+    let gs = groups(&none);
+    let gl = groups(&all);
+    // ---- accounting: addresses from the real "all" labeling ----
+    let mut addrs: Vec<usize> = Vec::new();
+    let mut acc_ok = gs.len() == gl.len();
+    if acc_ok {
+        for g in &gl {
+            let c = split_cols(&g.first);
+            match c[0].strip_prefix('_').and_then(|h| usize::from_str_radix(h, 16).ok()) {
+                Some(a) => addrs.push(a),
+                None => { acc_ok = false; break; }
+            }
+        }
+    }
+    if acc_ok {
+        acc_ok = (addrs.is_empty() && bytes.is_empty()) || (!addrs.is_empty() && addrs[0] == org);
+        for w in addrs.windows(2) { if w[1] <= w[0] { acc_ok = false; } }
+        if let Some(l) = addrs.last() { if *l >= end { acc_ok = false; } }
+    }
+    if !acc_ok {
+        ctx.out.oracle(false, "accounting", &format!("c15/{}/line-addresses-not-a-partition", pn), &format!("{} text={}", case.desc(idx), short(&all.replace('\n', "/"))));
+        return;
+    }
+    // ---- per line: the line's own bytes are the bytes of its span (all assembler variants of this processor) ----
+    let mut per_line: Vec<String> = Vec::new();
+    for v in versions(p) {
+        let cn = cfg_name(p, *v);
+        for (k, g) in gs.iter().enumerate() {
+            let lo = addrs[k];
+            let hi = if k + 1 < addrs.len() { addrs[k + 1] } else { end };
+            let want = &bytes[lo - org..hi - org];
+            let op = want[0];
+            let got = tools.asm_lines(&g.text, p, *v, lo, (m8, x8));
+            let mut tag = String::new();
+            match &got {
+                Ok(Ok(b)) => {
+                    tag = hx(b);
+                    let pass = b.as_slice() == want;
+                    ctx.out.oracle(pass, "line-reassembles-to-its-span", &format!("c15/{}/reassembly-differs/op={:02X}", cn, op),
+                        &format!("{} line={:?} at={:X} want={} got={}", case.desc(idx), canon_line(&g.first), lo, hx(want), hx(b)));
+                }
+                Ok(Err(_)) => {
+                    tag = "E".to_string();
+                    // an explicit refusal: the span must then be accounted for by the harness's own reading
+                    match expand_lup(g) {
+                        Some(b) => {
+                            ctx.out.oracle(b.as_slice() == want, "line-reassembles-to-its-span", &format!("c15/{}/lup-span-differs", cn),
+                                &format!("{} at={:X} want={} lup={}", case.desc(idx), lo, hx(want), hx(&b)));
+                        }
+                        None => {
+                            // refused single line: allowed by the property unless the input is pure code
+                            ctx.out.oracle(!pure, "pure-code-reassembles", &format!("c15/{}/reassembly-refused/op={:02X}", cn, op),
+                                &format!("{} line={:?} res={:?}", case.desc(idx), canon_line(&g.first), got));
+                        }
+                    }
+                }
+                Err(site) => {
+                    ctx.out.oracle(false, "line-reassembles-to-its-span", &format!("panic:{}", panic_site(site)), &format!("{} line={:?}", case.desc(idx), canon_line(&g.first)));
+                }
+            }
+            if *v == versions(p)[0] { per_line.push(tag); }
+        }
+    }
+    // ---- whole text through analyzer + assembler ----
+    for v in versions(p) {
+        let cn = cfg_name(p, *v);
+        let full = [header(p, *v, m8, x8), none.clone()].concat();
+        match tools.asm_full(&full, *v, org, (m8, x8)) {
+            Ok(Ok(b)) => {
+                let pass = &b == bytes;
+                let mut op = bytes.first().copied().unwrap_or(0);
+                let mut after_mv = false;
+                if !pass {
+                    let d = b.iter().zip(bytes.iter()).position(|(x, y)| x != y).unwrap_or(b.len().min(bytes.len()));
+                    let mut k = 0;
+                    for (j, a) in addrs.iter().enumerate() { if *a - org <= d { op = bytes[*a - org]; k = j; } }
+                    // every line is right on its own but a block move precedes the first wrong one: the program
+                    // counter of the assembler ran away (one signature for the whole class)
+                    if gs[..k].iter().any(|g| { let c = split_cols(&g.first); c[1] == "MVN" || c[1] == "MVP" }) { after_mv = true; }
+                }
+                let sig = if after_mv { format!("c15/{}/reassembly-differs/after-block-move", cn) } else { format!("c15/{}/reassembly-differs/op={:02X}", cn, op) };
+                ctx.out.oracle(pass, "reassembles-or-refuses", &sig,
+                    &format!("{} got={} text={}", case.desc(idx), hx(&b), short(&none.lines().map(canon_line).collect::<Vec<_>>().join("/"))));
+            }
+            Ok(Err(e)) => {
+                ctx.out.count("refused");
+                ctx.out.oracle(!pure, "pure-code-reassembles", &format!("c15/{}/reassembly-refused/op={:02X}", cn, bytes.first().copied().unwrap_or(0)),
+                    &format!("{} err={} text={}", case.desc(idx), short(&e), short(&none.lines().map(canon_line).collect::<Vec<_>>().join("/"))));
+            }
+            Err(site) => ctx.out.oracle(false, "reassembles-or-refuses", &format!("panic:{}", panic_site(&site)), &case.desc(idx)),
+        }
+    }
+    // ---- model tie ----
+    let req_tail = format!("{} {}{} {} {:X} {}", pn, m8 as u8, x8 as u8, brk as u8, org, hx(bytes));
+    if std::env::var("C15_NO_Q").is_err() {
+        let rendered = none.lines().map(canon_line).collect::<Vec<_>>().join(";");
+        ctx.out.q(&format!("c15 dasm {}", req_tail), if rendered.is_empty() { "-" } else { &rendered });
+        let spans: Vec<String> = addrs.iter().map(|a| format!("{:X}", a)).collect();
+        ctx.out.q(&format!("c15 spans {}", req_tail), &if spans.is_empty() { "-".to_string() } else { spans.join(",") });
+        ctx.out.q(&format!("c15 rt {}", req_tail), &if per_line.is_empty() { "-".to_string() } else { per_line.join(",") });
+    }
+}
+
+// ------------------------------------------------------------------------------------------------
+// generators
+
+const OPERANDS: [u32; 16] = [0, 1, 0x7F, 0x80, 0xFF, 0x100, 0x1234, 0x7FFF, 0x8000, 0xFFFF, 0x10000, 0x12345, 0x120056, 0x123400, 0x7FFFFF, 0xFFFFFF];
+const ORGS: [usize; 4] = [0, 0x300, 0x8000, 0xFFF0];
+
+fn le(v: u32, n: usize) -> Vec<u8> { v.to_le_bytes()[..n].to_vec() }
+
+fn gen_cases(ctx: &Ctx, tools: &Tools) -> Vec<Case> {
+    let mut cases: Vec<Case> = Vec::new();
+    let mut rng = Rng::new(ctx.seed);
+    // (A) every opcode x processor, operand classes; single instruction per case.
+    for p in PROCS {
+        for op in 0..=255u8 {
+            let mo = tools.book.get(&op);
+            let relative = mo.map(|m| m.relative).unwrap_or(false);
+            let sens = mo.map(|m| m.m_sensitive || m.x_sensitive).unwrap_or(false);
+            let mxs: Vec<(bool, bool)> = if sens { vec![(true, true), (true, false), (false, true), (false, false)] } else { vec![(true, true)] };
+            let orgs: Vec<usize> = if relative { ORGS.to_vec() } else { vec![0x300] };
+            for (m8, x8) in &mxs {
+                for org in &orgs {
+                    let n = tools.instr_len(op, p, *m8, *x8).unwrap_or(3).max(1) - 1;
+                    let mut vals: Vec<u32> = OPERANDS.iter().map(|v| if n == 0 { 0 } else if n >= 4 { *v } else { v & ((1u32 << (8 * n)) - 1) }).collect();
+                    if relative {
+                        vals.extend_from_slice(&[0x7E, 0x81, 0xFE, 0xFD, 0x7FFE, 0x8001, 0xFFFD, 0xFFFE, 0xEF, 0x10, 0x0F, 0xF0]);
+                    }
+                    vals.sort(); vals.dedup();
+                    for v in vals {
+                        let mut b = vec![op];
+                        b.extend(le(v, n.min(4)));
+                        cases.push(Case { p, m8: *m8, x8: *x8, brk: op == 0, org: *org, bytes: b, kind: "single" });
+                    }
+                }
+            }
+        }
+    }
+    // (B) origins above bank 0 (65816 only)
+    for op in [0x10u8, 0x80, 0x82, 0x62, 0xAD, 0xAF, 0x5C, 0x22, 0x4C, 0xA9] {
+        for org in [0x10000usize, 0x12345] {
+            let n = tools.instr_len(op, Proc::P65816, true, true).unwrap() - 1;
+            for v in [0u32, 0x12, 0x1234, 0x123456, 0xFFFFFF] {
+                let mut b = vec![op]; b.extend(le(v, n));
+                cases.push(Case { p: Proc::P65816, m8: true, x8: true, brk: false, org, bytes: b, kind: "bank1" });
+            }
+        }
+    }
+    // (C) truncated instructions (operand runs past the end of the range)
+    for p in PROCS { for op in 0..=255u8 {
+        if let Some(n) = tools.instr_len(op, p, true, true) { if n > 1 {
+            let b: Vec<u8> = std::iter::once(op).chain((0..n - 2).map(|i| 0x21 + i as u8)).collect();
+            cases.push(Case { p, m8: true, x8: true, brk: true, org: 0x300, bytes: b, kind: "truncated" });
+        } }
+    } }
+    // (D) data runs of every recognised pattern
+    let mut pats: Vec<Vec<u8>> = Vec::new();
+    for fill in [0x00u8, 0x02, 0xFF, 0x41, 0xC1, 0x20, 0xA0] { for n in [1usize, 2, 3, 4, 5, 17, 256, 300] { pats.push(vec![fill; n]); } }
+    for n in [2usize, 3, 4, 5, 7, 8, 33] { pats.push((0..n).map(|i| [0x02u8, 0x03][i % 2]).collect()); pats.push((0..n).map(|i| [0x02u8, 0x41][i % 2]).collect()); }
+    for n in [4usize, 5, 7, 8, 9, 12, 13, 41] { pats.push((0..n).map(|i| [0x02u8, 0x03, 0x04, 0x07][i % 4]).collect()); pats.push((0..n).map(|i| [0x41u8, 0x42, 0x43, 0x44][i % 4]).collect()); }
+    for s in ["HELLO", "Hello, World.", "A", "AB", "ABAB", "ABCDABCD", "A B", " ", "..", "a,b", "0123456789", "X1"] {
+        let pos: Vec<u8> = s.bytes().collect();
+        let neg: Vec<u8> = s.bytes().map(|c| c | 0x80).collect();
+        for base in [pos.clone(), neg.clone()] {
+            pats.push(base.clone());
+            let mut z = base.clone(); z.push(0); pats.push(z);
+            let mut d = base.clone(); let l = d.len() - 1; d[l] ^= 0x80; pats.push(d.clone());
+            d.push(0x02); pats.push(d);
+            let mut q = base.clone(); q.push(0x27); pats.push(q);
+            let mut q = base.clone(); q.push(0x22); pats.push(q);
+            let mut q = base.clone(); q.push(0xA2); pats.push(q);
+            let mut q = base.clone(); q.insert(0, 0x02); pats.push(q);
+        }
+    }
+    pats.push(vec![0x27, 0x41]); pats.push(vec![0x22, 0xC1]); pats.push(vec![0x02]); pats.push(vec![0x02, 0x60]); pats.push(vec![0x00]); pats.push(vec![0x00, 0x00]);
+    pats.push(vec![]);
+    for (i, pat) in pats.iter().enumerate() {
+        for p in PROCS {
+            // data only starts where the disassembler does not see an instruction: lead with an invalid opcode
+            // for that processor where one exists (65816: BRK with brk off)
+            let lead: u8 = match p { Proc::P6502 => 0x02, Proc::P65c02 => 0x02, _ => 0x00 };
+            cases.push(Case { p, m8: true, x8: true, brk: false, org: ORGS[i % 4], bytes: pat.clone(), kind: "data" });
+            let mut b = vec![lead]; b.extend_from_slice(pat);
+            cases.push(Case { p, m8: true, x8: true, brk: false, org: ORGS[(i + 1) % 4], bytes: b, kind: "data" });
+            let mut b = vec![0xEA]; b.extend_from_slice(pat); b.push(0x60);
+            cases.push(Case { p, m8: true, x8: true, brk: false, org: ORGS[(i + 2) % 4], bytes: b, kind: "data" });
+        }
+    }
+    // (W) the concrete witnesses of the three defects proved in Props/C15.lean, and a block move in front of
+    //     every kind of relative operand (the assembler's program counter must stay in step)
+    for p in [Proc::P65802, Proc::P65816] {
+        for b in [vec![0xAFu8, 0x56, 0x34, 0x12], vec![0xAF, 0x34, 0x00, 0x00], vec![0x54, 0x01, 0x02, 0x80, 0xFE],
+                  vec![0x44, 0x7B, 0x28, 0x82, 0x00, 0x00], vec![0x54, 0x01, 0x02, 0x62, 0x10, 0x00], vec![0x44, 0x00, 0x00, 0xD0, 0x05, 0xEA],
+                  vec![0x54, 0x01, 0x02, 0x54, 0x03, 0x04, 0x10, 0xF8]] {
+            cases.push(Case { p, m8: true, x8: true, brk: false, org: 0x300, bytes: b, kind: "witness" });
+        }
+    }
+    // (E) random pure code (all valid instructions), random code/data mixtures, random bytes
+    let n_rand = ctx.n(700, 20000);
+    for i in 0..n_rand {
+        let mut r = rng.fork(i as u64);
+        let p = *r.pick(&PROCS);
+        let (m8, x8) = (r.chance(60), r.chance(60));
+        let org = match r.below(6) { 0 => 0, 1 => 0x300, 2 => 0x8000, 3 => 0xFFF0 - r.below(16), 4 => r.below(0x10000), _ => 0x2000 };
+        let brk = r.chance(50);
+        let style = i % 3;
+        let mut b: Vec<u8> = Vec::new();
+        let len = r.range(1, 40);
+        let valid: Vec<u8> = (0..=255u8).filter(|o| tools.instr_len(*o, p, m8, x8).is_some()).collect();
+        while b.len() < len {
+            if style == 2 { b.push(r.byte()); continue; }
+            if style == 1 && r.chance(25) {
+                // a data-ish stretch
+                match r.below(5) {
+                    0 => { let f = r.byte(); let n = r.range(1, 6); b.extend(std::iter::repeat(f).take(n)); }
+                    1 => { let n = r.range(1, 8); let hi = if r.chance(50) { 0x80 } else { 0 }; for _ in 0..n { b.push(*r.pick(b"ABCXYZabz019 .,") | hi); } if r.chance(50) { b.push(0); } }
+                    2 => { let pat = r.bytes(2); let n = r.range(1, 4); for _ in 0..n { b.extend_from_slice(&pat); } }
+                    3 => { let pat = r.bytes(4); let n = r.range(1, 3); for _ in 0..n { b.extend_from_slice(&pat); } }
+                    _ => { b.push(r.byte()); }
+                }
+                continue;
+            }
+            let op = *r.pick(&valid);
+            let n = tools.instr_len(op, p, m8, x8).unwrap() - 1;
+            b.push(op);
+            let v: u32 = match r.below(5) { 0 => r.below(0x100) as u32, 1 => r.below(0x10000) as u32, 2 => *r.pick(&OPERANDS), _ => r.next() as u32 };
+            b.extend(le(v, n));
+        }
+        cases.push(Case { p, m8, x8, brk, org, bytes: b, kind: match style { 0 => "random-code", 1 => "random-mixture", _ => "random-bytes" } });
+    }
+    cases
+}
+
+pub fn run(ctx: &mut Ctx) {
+    let mut tools = Tools::new();
+    if let Ok(x) = std::env::var("C15_EXPLORE") {
+        // "<proc> <mx> <org> <ver> <hex> [brk]" ; ...
+        for spec in x.split(';') {
+            let t: Vec<&str> = spec.split_whitespace().collect();
+            let p = match t[0] { "6502" => Proc::P6502, "65c02" => Proc::P65c02, "65802" => Proc::P65802, _ => Proc::P65816 };
+            let m8 = t[1].as_bytes()[0] == b'1';
+            let x8 = t[1].as_bytes()[1] == b'1';
+            let org = usize::from_str_radix(t[2], 16).unwrap();
+            let ver = match t[3] { "m8" => Ver::M8, "m16" => Ver::M16, "m16+" => Ver::M16p, _ => Ver::M32 };
+            let bytes = unhx(t[4]);
+            let brk = t.len() > 5;
+            println!("== {} ==", spec);
+            match tools.dasm(&bytes, org, p, m8, x8, brk, "none") {
+                Ok(Ok(txt)) => {
+                    print!("{}", txt);
+                    let full = [header(p, ver, m8, x8), txt].concat();
+                    println!("-> {:?}", tools.asm_full(&full, ver, org, (m8, x8)).map(|r| r.map(|b| hx(&b))));
+                }
+                other => println!("{:?}", other),
+            }
+        }
+        return;
+    }
+    let cases = gen_cases(ctx, &tools);
+    for (idx, case) in cases.iter().enumerate() {
+        if !ctx.out.wants(idx) { continue; }
+        eval_case(ctx, &mut tools, idx, case);
+    }
+}
